@@ -14,7 +14,7 @@ from ..ropes import SymStr, SymBytes, eq_cells
 
 # argument kinds: s string, b blob, i int32, f float, T True, F False, N None, E empty list, M nested message,
 # B nested bundle, [ ] array markers (given as the strings '[' and ']')
-TEMPLATES_QUICK = ['s', 'si', 'ss', 'b', 'sb', 'bs', 'isf', 'TFNE', 'M', 'sM', 'B', '[si]', 's[b]i', 'fs']
+TEMPLATES_QUICK = ['s', 'si', 'ss', 'b', 'sb', 'bs', 'isf', 'TFNE', 'M', 'sM', 'B', '[si]', 's[b]i', 'fs', '[i[s]i]', '[[i]][f]']
 TEMPLATES_THOROUGH = TEMPLATES_QUICK + ['sss', 'bsb', 'MM', 'sBs', '[s[i]b]', 'isbfTNE', 'Ms', 'bM']
 
 
